@@ -30,7 +30,10 @@ RULE = ('random smooth functions (sin, cos, tanh, exp(0.1 u), squares, products,
         'use_jit x argument order; JaxExplicitComponent / JaxImplicitComponent x partial declaration {none '
         '(inferred), all, pairs} x declare_coloring x use_jit x matrix_free x fwd/rev; two input points per '
         'component; distinct = distinct (component kind, function source, configuration); non-trivial = '
-        'values and derivatives compared')
+        'values and derivatives compared.  quick tier: smaller functions (depth <= 2, <= 2 outputs, shapes up to '
+        '(2,3), jit for 1 case in 4) and the grid component class x declaration style x coloring x (method | '
+        'matrix_free) walked round-robin (every cell >= 2 times) plus as many cheap cs/fd function components; '
+        'thorough tier: the grid is sampled at random')
 ASSUMPTIONS = [
     'the same function body evaluated with NumPy by the harness is the reference; derivatives by complex step',
     'tolerance = 20 x spread of the reference under 1e-13 relative input perturbations (3 draws) + 64 ulp of the '
